@@ -138,7 +138,10 @@ fn keyset_from_bytes(id_offset: u32, key: [u8; 64]) -> Arc<KeySet> {
     raw.extend_from_slice(&0u32.to_be_bytes());
     raw.extend_from_slice(&1u32.to_be_bytes());
     raw.extend_from_slice(&key);
-    KeySetProvider::load(&mut &raw[..], 1).expect("keyset").0.get()
+    KeySetProvider::load(&mut &raw[..], 1)
+        .expect("keyset")
+        .0
+        .get()
 }
 
 impl Keys {
@@ -226,7 +229,9 @@ pub(crate) fn ext(ty: u16, body: &[u8], v5: bool) -> Vec<u8> {
 pub(crate) fn nts_auth(aad: &[u8], plaintext: &[u8], cipher: &dyn Cipher, v5: bool) -> Vec<u8> {
     let mut buf = plaintext.to_vec();
     buf.resize(plaintext.len() + 64, 0);
-    let r = cipher.encrypt(&mut buf, plaintext.len(), aad).expect("encrypt");
+    let r = cipher
+        .encrypt(&mut buf, plaintext.len(), aad)
+        .expect("encrypt");
     let nonce = buf[..r.nonce_length].to_vec();
     let ct = buf[r.nonce_length..r.nonce_length + r.ciphertext_length].to_vec();
     let mut body = Vec::new();
@@ -243,7 +248,13 @@ pub(crate) const UID: [u8; 32] = [0xA5; 32];
 /// every mode; client mode first so the first trace of a class is the plainest one
 const MODES: [u8; 8] = [3, 0, 1, 2, 4, 5, 6, 7];
 
-fn nts_request(version: u8, mode: u8, cookie: Option<&[u8]>, draft: Option<&str>, extra: &[u8]) -> Vec<u8> {
+fn nts_request(
+    version: u8,
+    mode: u8,
+    cookie: Option<&[u8]>,
+    draft: Option<&str>,
+    extra: &[u8],
+) -> Vec<u8> {
     let v5 = version == 5;
     let mut p = if v5 { hdr5(mode) } else { hdr34(version, mode) };
     p.extend(ext(0x0104, &UID, v5));
@@ -279,14 +290,25 @@ pub(crate) fn alphabet(k: &Keys) -> Vec<Dgram> {
     // ---- plain requests, every mode ----
     for ver in [3u8, 4] {
         for mode in MODES {
-            v.push(dg(&format!("v{ver}.plain.m{mode}"), hdr34(ver, mode), ver, mode, Plain, Well));
+            v.push(dg(
+                &format!("v{ver}.plain.m{mode}"),
+                hdr34(ver, mode),
+                ver,
+                mode,
+                Plain,
+                Well,
+            ));
         }
     }
     for mode in MODES {
         let mut p = hdr5(mode);
         p.extend(ext(0xF5FF, DRAFT_OK.as_bytes(), true));
         // NTPv5 only defines modes 3 and 4
-        let form = if mode == 3 || mode == 4 { Well } else { Malformed };
+        let form = if mode == 3 || mode == 4 {
+            Well
+        } else {
+            Malformed
+        };
         v.push(dg(&format!("v5.plain.m{mode}"), p, 5, mode, Plain, form));
     }
     {
@@ -310,11 +332,25 @@ pub(crate) fn alphabet(k: &Keys) -> Vec<Dgram> {
     // ---- NTS, authenticating ----
     for mode in MODES {
         let p = nts_request(4, mode, Some(&k.cookie), None, &[]);
-        v.push(dg(&format!("v4.nts.ok.m{mode}"), p, 4, mode, NtsValid, Well));
+        v.push(dg(
+            &format!("v4.nts.ok.m{mode}"),
+            p,
+            4,
+            mode,
+            NtsValid,
+            Well,
+        ));
     }
     for mode in [3u8, 4] {
         let p = nts_request(5, mode, Some(&k.cookie), Some(DRAFT_OK), &[]);
-        v.push(dg(&format!("v5.nts.ok.m{mode}"), p, 5, mode, NtsValid, Well));
+        v.push(dg(
+            &format!("v5.nts.ok.m{mode}"),
+            p,
+            5,
+            mode,
+            NtsValid,
+            Well,
+        ));
     }
     {
         let ph = ext(0x0304, &vec![0u8; k.cookie.len()], false);
@@ -326,11 +362,25 @@ pub(crate) fn alphabet(k: &Keys) -> Vec<Dgram> {
         let mut p = nts_request(4, mode, Some(&k.cookie), None, &[]);
         let n = p.len();
         p[n - 1] ^= 0x01; // last ciphertext (tag) byte
-        v.push(dg(&format!("v4.nts.badtag.m{mode}"), p, 4, mode, NtsBad, Well));
+        v.push(dg(
+            &format!("v4.nts.badtag.m{mode}"),
+            p,
+            4,
+            mode,
+            NtsBad,
+            Well,
+        ));
     }
     for mode in [3u8, 4] {
         let p = nts_request(4, mode, Some(&k.cookie_wrongkey), None, &[]);
-        v.push(dg(&format!("v4.nts.wrongkey-cookie.m{mode}"), p, 4, mode, NtsBad, Well));
+        v.push(dg(
+            &format!("v4.nts.wrongkey-cookie.m{mode}"),
+            p,
+            4,
+            mode,
+            NtsBad,
+            Well,
+        ));
     }
     {
         let p = nts_request(4, 3, Some(&k.cookie_unknown_id), None, &[]);
@@ -345,7 +395,14 @@ pub(crate) fn alphabet(k: &Keys) -> Vec<Dgram> {
         let mut p = nts_request(5, mode, Some(&k.cookie), Some(DRAFT_OK), &[]);
         let n = p.len();
         p[n - 1] ^= 0x01;
-        v.push(dg(&format!("v5.nts.badtag.m{mode}"), p, 5, mode, NtsBad, Well));
+        v.push(dg(
+            &format!("v5.nts.badtag.m{mode}"),
+            p,
+            5,
+            mode,
+            NtsBad,
+            Well,
+        ));
     }
     {
         let p = nts_request(5, 3, Some(&k.cookie_wrongkey), Some(DRAFT_OK), &[]);
@@ -362,7 +419,14 @@ pub(crate) fn alphabet(k: &Keys) -> Vec<Dgram> {
         let mut p = nts_request(5, 3, Some(&k.cookie), Some(DRAFT_OTHER), &[]);
         let n = p.len();
         p[n - 1] ^= 0x01;
-        v.push(dg("v5.otherdraft.nts.badtag.m3", p, 5, 3, NtsBad, OtherDraft));
+        v.push(dg(
+            "v5.otherdraft.nts.badtag.m3",
+            p,
+            5,
+            3,
+            NtsBad,
+            OtherDraft,
+        ));
         let mut p = nts_request(5, 3, Some(&k.cookie), None, &[]);
         let n = p.len();
         p[n - 1] ^= 0x01;
@@ -371,11 +435,39 @@ pub(crate) fn alphabet(k: &Keys) -> Vec<Dgram> {
     // ---- malformed ----
     v.push(dg("empty", vec![], 0, 0, Plain, Malformed));
     v.push(dg("1byte", vec![0x23], 4, 3, Plain, Malformed));
-    v.push(dg("v3.trunc47", hdr34(3, 3)[..47].to_vec(), 3, 3, Plain, Malformed));
-    v.push(dg("v4.trunc47", hdr34(4, 3)[..47].to_vec(), 4, 3, Plain, Malformed));
-    v.push(dg("v5.trunc47", hdr5(3)[..47].to_vec(), 5, 3, Plain, Malformed));
+    v.push(dg(
+        "v3.trunc47",
+        hdr34(3, 3)[..47].to_vec(),
+        3,
+        3,
+        Plain,
+        Malformed,
+    ));
+    v.push(dg(
+        "v4.trunc47",
+        hdr34(4, 3)[..47].to_vec(),
+        4,
+        3,
+        Plain,
+        Malformed,
+    ));
+    v.push(dg(
+        "v5.trunc47",
+        hdr5(3)[..47].to_vec(),
+        5,
+        3,
+        Plain,
+        Malformed,
+    ));
     for ver in [0u8, 1, 2, 6, 7] {
-        v.push(dg(&format!("ver{ver}.m3"), hdr34(ver, 3), ver, 3, Plain, Malformed));
+        v.push(dg(
+            &format!("ver{ver}.m3"),
+            hdr34(ver, 3),
+            ver,
+            3,
+            Plain,
+            Malformed,
+        ));
     }
     v.push(dg("garbage-ff48", vec![0xFF; 48], 7, 7, Plain, Malformed));
     v.push(dg("garbage-ff120", vec![0xFF; 120], 7, 7, Plain, Malformed));
@@ -398,7 +490,14 @@ pub(crate) fn alphabet(k: &Keys) -> Vec<Dgram> {
         // valid NTS request cut in the middle of the authenticator
         let p = nts_request(4, 3, Some(&k.cookie), None, &[]);
         let n = p.len();
-        v.push(dg("v4.nts.trunc-auth", p[..n - 8].to_vec(), 4, 3, NtsValid, Malformed));
+        v.push(dg(
+            "v4.nts.trunc-auth",
+            p[..n - 8].to_vec(),
+            4,
+            3,
+            NtsValid,
+            Malformed,
+        ));
         // NTPv3 has no extension fields; 36 trailing bytes are no MAC either
         let mut p = hdr34(3, 3);
         p.extend_from_slice(&[0x5A; 36]);
@@ -542,7 +641,9 @@ pub(crate) fn classify(resp: Option<&[u8]>, req_version: u8) -> Seen {
                     if ns + nl > body.len() || cs + cl > body.len() {
                         return false;
                     }
-                    s2c().decrypt(&body[ns..ns + nl], &body[cs..cs + cl], &r[..off]).is_ok()
+                    s2c()
+                        .decrypt(&body[ns..ns + nl], &body[cs..cs + cl], &r[..off])
+                        .is_ok()
                 })();
                 seen.auth = Some(ok);
                 break;
@@ -566,18 +667,35 @@ pub(crate) fn lists(thorough: bool) -> Vec<(&'static str, Vec<Net>)> {
     let mut v = vec![
         ("empty", vec![]),
         ("all", vec![net("0.0.0.0/0"), net("::/0")]),
-        ("slash24", vec![net("10.1.2.0/24"), net("2001:db8:1:2::/64")]),
-        ("host", vec![net("10.1.2.77/32"), net("2001:db8:1:2::5/128")]),
+        (
+            "slash24",
+            vec![net("10.1.2.0/24"), net("2001:db8:1:2::/64")],
+        ),
+        (
+            "host",
+            vec![net("10.1.2.77/32"), net("2001:db8:1:2::5/128")],
+        ),
         (
             "nested",
-            vec![net("10.1.0.0/16"), net("10.1.2.0/24"), net("10.1.2.77/32"), net("2001:db8::/32")],
+            vec![
+                net("10.1.0.0/16"),
+                net("10.1.2.0/24"),
+                net("10.1.2.77/32"),
+                net("2001:db8::/32"),
+            ],
         ),
         ("all-v4", vec![net("0.0.0.0/0")]),
     ];
     if thorough {
         v.push(("all-v6", vec![net("::/0")]));
-        v.push(("upper-half", vec![net("10.1.2.128/25"), net("2001:db8:1:2:8000::/65")]));
-        v.push(("pair", vec![net("10.1.2.76/31"), net("2001:db8:1:2::4/127")]));
+        v.push((
+            "upper-half",
+            vec![net("10.1.2.128/25"), net("2001:db8:1:2:8000::/65")],
+        ));
+        v.push((
+            "pair",
+            vec![net("10.1.2.76/31"), net("2001:db8:1:2::4/127")],
+        ));
     }
     v
 }
@@ -640,11 +758,17 @@ pub(crate) fn listed(list: &[Net], a: IpAddr) -> bool {
     list.iter().any(|(n, m)| match (canon_net((*n, *m)), a) {
         ((IpAddr::V4(n), m), IpAddr::V4(x)) => {
             let m = &m;
-            let (n, x) = (u32::from_be_bytes(n.octets()) as u64, u32::from_be_bytes(x.octets()) as u64);
+            let (n, x) = (
+                u32::from_be_bytes(n.octets()) as u64,
+                u32::from_be_bytes(x.octets()) as u64,
+            );
             *m == 0 || (n ^ x) >> (32 - *m as u32) == 0
         }
         ((IpAddr::V6(n), m), IpAddr::V6(x)) => {
-            let (n, x) = (u128::from_be_bytes(n.octets()), u128::from_be_bytes(x.octets()));
+            let (n, x) = (
+                u128::from_be_bytes(n.octets()),
+                u128::from_be_bytes(x.octets()),
+            );
             m == 0 || (n ^ x) >> (128 - m as u32) == 0
         }
         _ => false,
@@ -662,7 +786,10 @@ pub(crate) fn canon_net(n: Net) -> Net {
     match n {
         (IpAddr::V6(x), m) if is_mapped(&x) && m >= 96 => {
             let o = x.octets();
-            (IpAddr::V4(Ipv4Addr::new(o[12], o[13], o[14], o[15])), m - 96)
+            (
+                IpAddr::V4(Ipv4Addr::new(o[12], o[13], o[14], o[15])),
+                m - 96,
+            )
         }
         other => other,
     }
@@ -722,13 +849,19 @@ impl Policy {
             l.iter()
                 .map(|(a, m)| match a {
                     // written in IPv4-mapped form: through the real text parser, as a config file would
-                    IpAddr::V6(x) if is_mapped(x) => format!("{a}/{m}").parse::<IpSubnet>().expect("mapped subnet text"),
+                    IpAddr::V6(x) if is_mapped(x) => format!("{a}/{m}")
+                        .parse::<IpSubnet>()
+                        .expect("mapped subnet text"),
                     _ => IpSubnet { addr: *a, mask: *m },
                 })
                 .collect()
         };
         let mut accepted = Vec::new();
-        for (v, nv) in [(3u8, NtpVersion::V3), (4, NtpVersion::V4), (5, NtpVersion::V5)] {
+        for (v, nv) in [
+            (3u8, NtpVersion::V3),
+            (4, NtpVersion::V4),
+            (5, NtpVersion::V5),
+        ] {
             if self.accepts(v) {
                 accepted.push(nv);
             }
@@ -752,7 +885,12 @@ impl Policy {
     pub(crate) fn server(&self, keys: &Keys) -> (Server<MockClock>, MockClock) {
         let clock = MockClock::new();
         (
-            Server::new_internal(self.server_config(), clock.clone(), server_info(), keys.keyset.clone()),
+            Server::new_internal(
+                self.server_config(),
+                clock.clone(),
+                server_info(),
+                keys.keyset.clone(),
+            ),
             clock,
         )
     }
@@ -858,10 +996,21 @@ pub(crate) struct Outcome {
 }
 
 /// One call into the real `Server::handle`.
-pub(crate) fn run_handle(server: &mut Server<MockClock>, addr: IpAddr, dgram: &[u8], buf: &mut [u8]) -> Outcome {
+pub(crate) fn run_handle(
+    server: &mut Server<MockClock>,
+    addr: IpAddr,
+    dgram: &[u8],
+    buf: &mut [u8],
+) -> Outcome {
     let mut regs = Regs::default();
     let r = common::catch(|| {
-        match server.handle(addr, NtpTimestamp::from_fixed_int(RECV_TS), dgram, buf, &mut regs) {
+        match server.handle(
+            addr,
+            NtpTimestamp::from_fixed_int(RECV_TS),
+            dgram,
+            buf,
+            &mut regs,
+        ) {
             ServerAction::Ignore => None,
             ServerAction::Respond { message } => Some(message.to_vec()),
         }
@@ -932,7 +1081,13 @@ impl Block {
     /// first and last address of a (value, length) subnet
     fn range(&self, n: (u128, u8)) -> (u128, u128) {
         let host = self.width() - n.1;
-        let size_m1 = if host == 0 { 0 } else if host == 128 { u128::MAX } else { (1u128 << host) - 1 };
+        let size_m1 = if host == 0 {
+            0
+        } else if host == 128 {
+            u128::MAX
+        } else {
+            (1u128 << host) - 1
+        };
         (n.0, n.0 | size_m1)
     }
 }
@@ -940,8 +1095,16 @@ impl Block {
 fn parse_block(s: &str) -> Block {
     let (a, l) = s.split_once('/').unwrap();
     match a.parse::<IpAddr>().unwrap() {
-        IpAddr::V4(x) => Block { v6: false, val: u32::from_be_bytes(x.octets()) as u128, len: l.parse().unwrap() },
-        IpAddr::V6(x) => Block { v6: true, val: u128::from_be_bytes(x.octets()), len: l.parse().unwrap() },
+        IpAddr::V4(x) => Block {
+            v6: false,
+            val: u32::from_be_bytes(x.octets()) as u128,
+            len: l.parse().unwrap(),
+        },
+        IpAddr::V6(x) => Block {
+            v6: true,
+            val: u128::from_be_bytes(x.octets()),
+            len: l.parse().unwrap(),
+        },
     }
 }
 
@@ -949,13 +1112,20 @@ pub(crate) fn blocks(thorough: bool) -> Vec<Block> {
     let mut v = vec![
         "192.168.240.0/20", // block in the middle of the address
         "10.240.0.0/12",
-        "172.16.5.240/28", // last nibble of an IPv4 address
+        "172.16.5.240/28",    // last nibble of an IPv4 address
         "255.255.255.240/28", // block that ends at the end of the address space
         "2001:db8:0:f000::/52",
         "2001:db8:5::fff0/124", // last nibble of an IPv6 address
     ];
     if thorough {
-        v.extend(["240.0.0.0/4", "10.1.0.0/16", "0.0.0.0/8", "fff0::/12", "2001:db8:ffff:ff00::/56", "::/4"]);
+        v.extend([
+            "240.0.0.0/4",
+            "10.1.0.0/16",
+            "0.0.0.0/8",
+            "fff0::/12",
+            "2001:db8:ffff:ff00::/56",
+            "::/4",
+        ]);
     }
     v.into_iter().map(parse_block).collect()
 }
@@ -976,7 +1146,10 @@ pub(crate) fn boundary_lists(b: &Block, thorough: bool) -> Vec<Vec<Net>> {
         ps.sort_unstable();
         ps.dedup();
         for p in ps {
-            let bits: String = (0..s).rev().map(|i| if p >> i & 1 == 1 { '1' } else { '0' }).collect();
+            let bits: String = (0..s)
+                .rev()
+                .map(|i| if p >> i & 1 == 1 { '1' } else { '0' })
+                .collect();
             if let Some(n) = b.sub(&bits) {
                 if !singles.contains(&n) {
                     singles.push(n);
@@ -986,18 +1159,18 @@ pub(crate) fn boundary_lists(b: &Block, thorough: bool) -> Vec<Vec<Net>> {
     }
     let mut out: Vec<Vec<Net>> = singles.iter().map(|n| vec![b.net(*n)]).collect();
     let runs: [&[&str]; 12] = [
-        &["01", "1"],                 // [1/4, 1): reaches the end, start missing
-        &["0", "10", "110"],          // [0, 7/8): adjacent run, end missing
-        &["0", "10", "110", "111"],   // tiles the whole block
-        &["0", "1"],                  // tiles the whole block
-        &["0", "11"],                 // gap in the middle
-        &["1", "111"],                // nested, at the end
-        &["10", "110", "111"],        // [1/2, 1) as an adjacent run
-        &["00", "01", "10"],          // [0, 3/4)
-        &["001", "01", "1"],          // [1/8, 1)
-        &["0000", "1111"],            // both edges only
-        &["1110", "1111"],            // [7/8, 1) from two halves
-        &["01", "10"],                // the middle half
+        &["01", "1"],               // [1/4, 1): reaches the end, start missing
+        &["0", "10", "110"],        // [0, 7/8): adjacent run, end missing
+        &["0", "10", "110", "111"], // tiles the whole block
+        &["0", "1"],                // tiles the whole block
+        &["0", "11"],               // gap in the middle
+        &["1", "111"],              // nested, at the end
+        &["10", "110", "111"],      // [1/2, 1) as an adjacent run
+        &["00", "01", "10"],        // [0, 3/4)
+        &["001", "01", "1"],        // [1/8, 1)
+        &["0000", "1111"],          // both edges only
+        &["1110", "1111"],          // [7/8, 1) from two halves
+        &["01", "10"],              // the middle half
     ];
     for r in runs {
         let nets: Option<Vec<Net>> = r.iter().map(|bits| b.sub(bits).map(|n| b.net(n))).collect();
@@ -1063,12 +1236,22 @@ pub(crate) fn boundary_addresses(b: &Block, list: &[Net]) -> Vec<IpAddr> {
             out.push(IpAddr::V6(x.to_ipv6_mapped()));
         }
     }
-    out.push(if b.v6 { "192.0.2.1".parse().unwrap() } else { "2001:db8::1".parse().unwrap() });
+    out.push(if b.v6 {
+        "192.0.2.1".parse().unwrap()
+    } else {
+        "2001:db8::1".parse().unwrap()
+    });
     out
 }
 
 fn list_name(l: &[Net]) -> &'static str {
-    leak(format!("@{}", l.iter().map(|(a, m)| format!("{a}/{m}")).collect::<Vec<_>>().join("+")))
+    leak(format!(
+        "@{}",
+        l.iter()
+            .map(|(a, m)| format!("{a}/{m}"))
+            .collect::<Vec<_>>()
+            .join("+")
+    ))
 }
 
 /// Policies of the boundary sweep for one list: as allow list (nothing denied), as deny
@@ -1090,24 +1273,45 @@ pub(crate) fn boundary_policies(l: &[Net]) -> Vec<Policy> {
             cache_size: 0,
             cutoff: Duration::ZERO,
         };
-        out.push(Policy { allow_name: name, allow: l.to_vec(), ..base.clone() });
-        out.push(Policy { deny_name: name, deny: l.to_vec(), ..base.clone() });
+        out.push(Policy {
+            allow_name: name,
+            allow: l.to_vec(),
+            ..base.clone()
+        });
+        out.push(Policy {
+            deny_name: name,
+            deny: l.to_vec(),
+            ..base.clone()
+        });
         out.push(Policy {
             deny_name: name,
             deny: l.to_vec(),
             allow_name: name,
             allow: l.to_vec(),
-            allow_act: if act == Act::Ignore { Act::Deny } else { Act::Ignore },
+            allow_act: if act == Act::Ignore {
+                Act::Deny
+            } else {
+                Act::Ignore
+            },
             ..base.clone()
         });
     }
     out
 }
 
-pub(crate) const BOUNDARY_DGRAMS: [&str; 5] = ["v4.plain.m3", "v3.plain.m3", "v5.plain.m3", "v4.nts.ok.m3", "v4.nts.badtag.m3"];
+pub(crate) const BOUNDARY_DGRAMS: [&str; 5] = [
+    "v4.plain.m3",
+    "v3.plain.m3",
+    "v5.plain.m3",
+    "v4.nts.ok.m3",
+    "v4.nts.badtag.m3",
+];
 
 fn sweep_boundary(ctx: &Ctx, keys: &Keys, alpha: &[Dgram], thorough: bool) {
-    let dgs: Vec<&Dgram> = BOUNDARY_DGRAMS.iter().map(|n| alpha.iter().find(|d| d.name == *n).expect("datagram")).collect();
+    let dgs: Vec<&Dgram> = BOUNDARY_DGRAMS
+        .iter()
+        .map(|n| alpha.iter().find(|d| d.name == *n).expect("datagram"))
+        .collect();
     let mut work: Vec<(Block, Vec<Net>)> = Vec::new();
     for b in blocks(thorough) {
         for l in boundary_lists(&b, thorough) {
@@ -1149,7 +1353,12 @@ fn sweep_boundary(ctx: &Ctx, keys: &Keys, alpha: &[Dgram], thorough: bool) {
             ctx.add(&format!("bnd.{k}"), v);
         }
         if wi % 53 == 1 {
-            ctx.sample(format!("boundary list {} : {} client addresses, {} inside", list_name(l), addrs.len(), inside));
+            ctx.sample(format!(
+                "boundary list {} : {} client addresses, {} inside",
+                list_name(l),
+                addrs.len(),
+                inside
+            ));
         }
     });
 }
@@ -1216,11 +1425,17 @@ fn judge(
     let trace = || format!("{};addr={};dg={}", p.trace(), addr, d.name);
     let seen = classify(out.resp.as_deref(), d.version);
     if let Some(e) = &out.panic {
-        ctx.violation("C15:handle-panic", format!("Server::handle panicked: {e}"), trace());
+        ctx.violation(
+            "C15:handle-panic",
+            format!("Server::handle panicked: {e}"),
+            trace(),
+        );
         return seen;
     }
     let (allowed, why) = reference(p, addr, d);
-    *tally.entry(format!("out.{why}.{}", seen.ans.tag())).or_insert(0) += 1;
+    *tally
+        .entry(format!("out.{why}.{}", seen.ans.tag()))
+        .or_insert(0) += 1;
     if allowed & seen.ans.bit() == 0 {
         let want: Vec<&str> = [Ans::None, Ans::Time, Ans::Deny, Ans::Nak]
             .iter()
@@ -1229,7 +1444,9 @@ fn judge(
             .collect();
         // "never answered" clauses: one class per clause (the kind of answer is in the text);
         // the other clauses: one class per (clause, wrong answer)
-        let class = if allowed == Ans::None.bit() && matches!(why, "malformed" | "other-draft" | "non-client" | "version") {
+        let class = if allowed == Ans::None.bit()
+            && matches!(why, "malformed" | "other-draft" | "non-client" | "version")
+        {
             format!("C15:{why}-answered")
         } else {
             format!("C15:{why}:got-{}", seen.ans.tag())
@@ -1252,7 +1469,10 @@ fn judge(
     if seen.leaks_time {
         ctx.violation(
             &format!("C15:{}-answer-carries-time", seen.ans.tag()),
-            format!("a {} answer to {addr} contains the server clock reading or receive time", seen.ans.tag()),
+            format!(
+                "a {} answer to {addr} contains the server clock reading or receive time",
+                seen.ans.tag()
+            ),
             trace(),
         );
     }
@@ -1262,7 +1482,10 @@ fn judge(
             (Kind::NtsValid, Some(true)) | (Kind::Plain, None) => {}
             (Kind::NtsValid, a) => ctx.violation(
                 "C15:nts-time-not-authenticated",
-                format!("time answer to authenticated NTS request {} has authenticator {a:?}", d.name),
+                format!(
+                    "time answer to authenticated NTS request {} has authenticator {a:?}",
+                    d.name
+                ),
                 trace(),
             ),
             _ => {}
@@ -1386,7 +1609,9 @@ fn check() {
     ctx.assume("IPv4-mapped IPv6 client addresses are matched as IPv4; a subnet only contains addresses of its own family (same reading as C31)");
     ctx.assume("'never answered' for NTPv5 covers requests of another draft / without draft identification (this implementation speaks exactly one draft)");
     ctx.assume("the 'ignore'/'deny' reading of the list actions also applies to require-nts (ignore: nothing, deny: at most DENY)");
-    ctx.assume("rate limiting is off in this check (cache size 0); its interaction with the lists is C20");
+    ctx.assume(
+        "rate limiting is off in this check (cache size 0); its interaction with the lists is C20",
+    );
     ctx.assume("a request that carries an NTS authenticator that does not verify may be answered with nothing or an NTS NAK (never time) when the client passes the lists");
     if !self_check(&ctx, &keys, &alpha) {
         ctx.exhaustive(false);
@@ -1413,7 +1638,13 @@ fn check() {
                     hashes.push(common::hash_of(&(pi, ai, di)));
                 }
                 if pi % 997 == 5 && ai == 3 && di % 17 == 2 {
-                    ctx.sample(format!("{};addr={};dg={} -> {}", p.trace(), addr, d.name, seen.ans.tag()));
+                    ctx.sample(format!(
+                        "{};addr={};dg={} -> {}",
+                        p.trace(),
+                        addr,
+                        d.name,
+                        seen.ans.tag()
+                    ));
                 }
             }
         }
